@@ -19,7 +19,14 @@ Rec == Log[t]
 Ev  == Log[t].events[l]
 
 ClauseNames == {"GridSize", "Kinds", "KindAndSize", "WindMatches", "WindRoundTrip", "WindDefault",
-                "RavelMatches", "RavelRoundTrip", "KnownAction"}
+                "RavelMatches", "RavelRoundTrip", "KnownAction", "GridSizeBeyondInt32"}
+
+\* Grids with more cells than a 32-bit integer counts (a global 30 arc-second raster has 43200 x 86400): TLC's own integers
+\* are 32-bit too, so the size is compared in two limbs <<size \div 65536, size % 65536>>; ny, nx < 65536
+LimbProduct(ny, nx) ==
+  LET a == ny \div 256  b == ny % 256  c == nx \div 256  d == nx % 256
+      mid == (a * d + b * c) * 256 + b * d
+  IN <<a * c + mid \div 65536, mid % 65536>>
 
 ObsOk(e) == "ok" \in DOMAIN e.obs
 
@@ -28,7 +35,9 @@ Matches(obs, spec) ==
   ELSE "err" \in DOMAIN obs
 
 Clause(name, ww, e) ==
-  CASE name = "KnownAction" -> e.a \in {"GridSize", "Kinds", "Wind", "WindDefault", "Ravel", "KindOf"}
+  CASE name = "KnownAction" -> e.a \in {"GridSize", "Kinds", "Wind", "WindDefault", "Ravel", "KindOf", "GridSizeBig"}
+    [] name = "GridSizeBeyondInt32" ->
+         e.a = "GridSizeBig" => (e.obs.face = LimbProduct(ww.ny, ww.nx) /\ e.obs.kindof = LimbProduct(ww.ny, ww.nx))
     [] name = "KindAndSize" ->
          \* what the convention reports for a variable carrying exactly the dimensions of one grid (in any order, with or
          \* without further dimensions): that grid, and its size
@@ -87,7 +96,7 @@ Step ==
 TNext == Step
 TSpec == TInit /\ [][TNext]_tvars
 
-Required == {"GridSize", "Kinds", "Wind", "WindDefault", "Ravel", "KindOf", "api-unravel_index", "error-path", "non-square",
+Required == {"GridSizeBig", "GridSize", "Kinds", "Wind", "WindDefault", "Ravel", "KindOf", "api-unravel_index", "error-path", "non-square",
              "cf1d", "cf2d", "shoc_simple", "shoc_standard", "arakawa", "ugrid",
              "ugrid-edges", "ugrid-no-edges"}
 
